@@ -18,8 +18,15 @@ def device_classes():
         class DeviceApp(L.app.ApplicationIOController, WhoIsIAmServices, ReadWritePropertyServices, ReadWritePropertyMultipleServices, ChangeOfValueServices):
             _startup_disabled = True
 
+            record_iam = False        # an application that keeps what peers announce (as the comment in do_IAmRequest suggests it should)
+
             def __init__(self, device):
                 L.app.ApplicationIOController.__init__(self, device)
+
+            def do_IAmRequest(self, apdu):
+                WhoIsIAmServices.do_IAmRequest(self, apdu)
+                if self.record_iam:
+                    self.deviceInfoCache.iam_device_info(apdu)
 
         class ClientApp(L.app.Application):
             _startup_disabled = True
@@ -68,3 +75,14 @@ def request_frame(invoke, service, body, maxresp=5, maxsegs=0, sa=False, er=True
     return RN.encode(dict(msg=None, dadr=None, sadr=None, er=er, prio=0, hop=None,
                           data=RA.encode(dict(type=RA.CONF, seg=False, mor=False, sa=sa, maxsegs=maxsegs, maxresp=maxresp,
                                               invoke=invoke, service=service, data=body))))
+
+
+def iam_frame(instance, max_apdu, segmentation, vendor=999, sadr=None):
+    """an I-Am (unconfirmed service 0) built with the reference encoders"""
+    from .ref import asn1 as R1
+    def uns(v):
+        n = max(1, (v.bit_length() + 7) // 8)
+        return v.to_bytes(n, "big")
+    body = R1.encode_tag((R1.APP, R1.OID, 4, R1.enc_oid(8, instance))) + R1.encode_tag((R1.APP, R1.UNSIGNED, len(uns(max_apdu)), uns(max_apdu))) + \
+        R1.encode_tag((R1.APP, R1.ENUM, 1, bytes([segmentation]))) + R1.encode_tag((R1.APP, R1.UNSIGNED, len(uns(vendor)), uns(vendor)))
+    return RN.encode(dict(msg=None, dadr=None, sadr=sadr, er=False, prio=0, hop=None, data=bytes([0x10, 0x00]) + body))
